@@ -407,7 +407,7 @@ func (r *Rng) DerivedPath(m map[string]interface{}, allowIdx bool, maxLen int) s
 			k := ks[r.Intn(len(ks))]
 			seg := k
 			next := mm[k]
-			if allowIdx {
+			if allowIdx && k != "*" { // (an index on a "*" step is outside every path domain)
 				if l, ok := next.([]interface{}); ok && r.P(55) {
 					idx := r.Intn(len(l) + 1)
 					if r.P(10) {
